@@ -42,3 +42,8 @@ def run(repo, res, tier):
     # the by-character fall-back for files with an undecodable tail reads bytes, also for an already-open text stream
     from .. import apirules as _ap5
     _ap5.rule_f5(repo, res)
+    # the entry points forward parser / grammar / decoder in the callee's order
+    from .. import hookrules as _hkao
+    _hkao.rule_arg_order(repo, res)
+    # nothing after END matters: the repair hook hands END back to the production that recognises it
+    _hkao.rule_hook_peek(repo, res)
